@@ -273,35 +273,120 @@ func (h *c04Handle) list() (ws []*c04WP, sig []int, rej []bool) {
 // universe
 
 type c04Cfg struct {
-	min    int
-	mode   string
-	policy string
+	min     int
+	mode    string
+	policy  string
+	timeout int      // PodGroup spec.scheduleTimeoutSeconds: part of the spec, irrelevant for the decisions
+	decl    []string // the gang group as declared: sorted gang ids, always naming the gang itself; never mutated in place
+	repr    int      // how the declaration is written in the groups annotation (c04Repr*)
 }
 
-type c04Group struct {
-	idx   int
-	gangs []*c04Gang
-	ids   []string
-	// some member was bound before (PostBind or a delivered version with a node name has begun).
-	// Sticky and never reset: lenient (sound) with respect to "once satisfied".
-	satisfied bool
-	// evidence only
-	deleteWhileHeldSinceLastPermit bool
+// The gang-groups annotation. A gang that declares no other gang is its own group, however that is
+// written: annotation absent, "", "null", "[]", illegal JSON, or a list naming only the gang.
+const (
+	c04ReprList = iota // JSON list of decl
+	c04ReprAbsent
+	c04ReprEmptyString
+	c04ReprNull
+	c04ReprEmptyList
+	c04ReprIllegal
+)
+
+var c04ReprNames = []string{"list", "absent", "empty_string", "null", "empty_list", "illegal_json"}
+
+const c04Ghost = c04NS + "/ghost" // a gang that never exists
+
+func c04GroupsAnnotation(cfg c04Cfg) (string, bool) {
+	switch cfg.repr {
+	case c04ReprAbsent:
+		return "", false
+	case c04ReprEmptyString:
+		return "", true
+	case c04ReprNull:
+		return "null", true
+	case c04ReprEmptyList:
+		return "[]", true
+	case c04ReprIllegal:
+		return `["` + cfg.decl[0] + `",`, true
+	}
+	q := make([]string, len(cfg.decl))
+	for i, id := range cfg.decl {
+		q[i] = strconv.Quote(id)
+	}
+	return "[" + strings.Join(q, ",") + "]", true
+}
+
+// c04DeclKind names the degenerate ways of declaring the group ("" = an ordinary list of several gangs).
+func c04DeclKind(cfg c04Cfg) string {
+	for _, id := range cfg.decl {
+		if id == c04Ghost {
+			return "nonexistent_gang"
+		}
+	}
+	if cfg.repr != c04ReprList {
+		return c04ReprNames[cfg.repr]
+	}
+	if len(cfg.decl) == 1 {
+		return "self_only"
+	}
+	return ""
+}
+
+func c04SameDecl(a, b []string) bool {
+	if len(a) != len(b) {
+		return false
+	}
+	for i := range a {
+		if a[i] != b[i] {
+			return false
+		}
+	}
+	return true
+}
+
+func c04CfgEq(a, b c04Cfg) bool {
+	return a.min == b.min && a.mode == b.mode && a.policy == b.policy && a.timeout == b.timeout && a.repr == b.repr && c04SameDecl(a.decl, b.decl)
+}
+
+func c04Without(decl []string, id string) []string {
+	out := []string{}
+	for _, x := range decl {
+		if x != id {
+			out = append(out, x)
+		}
+	}
+	return out
+}
+
+func c04With(decl []string, id string) []string {
+	out := append(c04Without(decl, id), id)
+	sort.Strings(out)
+	return out
+}
+
+func c04Has(decl []string, id string) bool {
+	for _, x := range decl {
+		if x == id {
+			return true
+		}
+	}
+	return false
 }
 
 type c04Gang struct {
 	idx        int
 	name, id   string
 	crd        bool
-	group      *c04Group
 	slots      int
 	want       c04Cfg // what the API objects say (annotation gangs: constant)
-	omitPolicy bool   // leave the match-policy annotation out (only when want.policy is the default)
+	omitPolicy bool   // leave the match-policy annotation out (only when the policy is the default)
 	pgRV       int
 	// crd gangs: the last PodGroup the cache was told about
 	cfgBegun, cfgDone bool
 	cfg               c04Cfg
 	pods              []*c04Pod // every incarnation, creation order
+	// evidence only
+	deleteWhileHeldSinceLastPermit bool
 }
 
 type c04Ver struct {
@@ -329,7 +414,7 @@ type c04Pod struct {
 	staleAfterBound       bool // a version with an empty node name was delivered after the cache was told "bound"
 	// scheduler
 	held bool
-	fw   int // 0 idle, 1 in the waiting map, 2 binding
+	fw   int // 0 idle, 1 in the waiting map, 2 binding, 3 bind applied at the API but reported failed: Unreserve pending
 	wp   *c04WP
 }
 
@@ -354,6 +439,7 @@ const (
 	c04SWake
 	c04STimeout
 	c04SBind
+	c04SLate
 )
 
 type c04U struct {
@@ -365,12 +451,20 @@ type c04U struct {
 
 	mu      sync.Mutex // guards everything below that both goroutines touch
 	gangs   []*c04Gang
-	groups  []*c04Group
+	byID    map[string]*c04Gang
 	pods    []*c04Pod
 	rv      int
 	binding []*c04Pod // scheduler goroutine only
-	order   []byte
-	stop    atomic.Bool
+	late    []*c04Pod // scheduler goroutine only: bind applied but reported failed, Unreserve not yet run
+	// "Some member was bound before", kept per set of gangs that ever declared one another as group
+	// mates (union-find over gang indexes, never split, never reset). The implementation keeps its
+	// once-satisfied flag in a GangGroupInfo object that a gang shares with the gangs that declared
+	// the same group when they were first initialised; every such pair is in one set here, so the
+	// shadow flag is true whenever the implementation's is: lenient, hence sound for (1) and (3).
+	parent []int
+	sat    []bool
+	order  []byte
+	stop   atomic.Bool
 
 	infPanic string
 	infStack string
@@ -428,6 +522,55 @@ func (u *c04U) gangCfg(g *c04Gang) c04Cfg {
 	return g.want
 }
 
+func (u *c04U) find(i int) int {
+	for u.parent[i] != i {
+		i = u.parent[i]
+	}
+	return i
+}
+
+// relateLocked: gang g declares decl (delivered to the cache): all of them are related from now on.
+func (u *c04U) relateLocked(g *c04Gang, decl []string) {
+	for _, id := range decl {
+		if h := u.byID[id]; h != nil {
+			a, b := u.find(g.idx), u.find(h.idx)
+			if a != b {
+				u.parent[b] = a
+				u.sat[a] = u.sat[a] || u.sat[b]
+			}
+		}
+	}
+}
+
+func (u *c04U) satLocked(g *c04Gang) bool { return u.sat[u.find(g.idx)] }
+func (u *c04U) setSatLocked(g *c04Gang)   { u.sat[u.find(g.idx)] = true }
+
+// declLocked: the gang group as currently declared by g, as far as the cache was told.
+func (u *c04U) declLocked(g *c04Gang) []string {
+	cfg := u.gangCfg(g)
+	if (g.crd && !g.cfgBegun) || len(cfg.decl) == 0 {
+		return []string{g.id}
+	}
+	return cfg.decl
+}
+
+func (u *c04U) index() {
+	u.byID = map[string]*c04Gang{}
+	u.parent = make([]int, len(u.gangs))
+	u.sat = make([]bool, len(u.gangs))
+	for i, g := range u.gangs {
+		u.byID[g.id] = g
+		u.parent[i] = i
+	}
+	for _, g := range u.gangs {
+		if !g.crd {
+			u.relateLocked(g, g.want.decl)
+		}
+	}
+}
+
+var c04SingleReprs = []int{c04ReprList, c04ReprList, c04ReprList, c04ReprAbsent, c04ReprAbsent, c04ReprEmptyString, c04ReprNull, c04ReprEmptyList, c04ReprEmptyList, c04ReprIllegal}
+
 func c04NewUniverse(c *kit.Case, conc bool) *c04U {
 	r := c.R
 	u := &c04U{c: c, conc: conc, ctx: context.TODO()}
@@ -446,7 +589,6 @@ func c04NewUniverse(c *kit.Case, conc bool) *c04U {
 	}
 	gi := 0
 	for k := 0; k < ngroups; k++ {
-		grp := &c04Group{idx: k}
 		n := r.Weighted(35, 40, 25) + 1
 		if k == 1 {
 			n = r.Weighted(60, 40) + 1
@@ -457,10 +599,13 @@ func c04NewUniverse(c *kit.Case, conc bool) *c04U {
 		}
 		policy := kit.Pick(r, c04Policies)
 		mixed := r.Pct(20)
+		allCRD := r.Pct(25) // groups made of PodGroup gangs only can change their membership later
+		var grp []*c04Gang
+		var ids []string
 		for j := 0; j < n; j++ {
-			g := &c04Gang{idx: gi, name: fmt.Sprintf("g%d", gi), crd: r.Pct(40), group: grp, slots: r.Range(2, 5)}
+			g := &c04Gang{idx: gi, name: fmt.Sprintf("g%d", gi), crd: allCRD || r.Pct(35), slots: r.Range(2, 5)}
 			g.id = c04NS + "/" + g.name
-			g.want = c04Cfg{min: r.Range(1, 3), mode: mode, policy: policy}
+			g.want = c04Cfg{min: r.Range(1, 3), mode: mode, policy: policy, timeout: 300}
 			if mixed {
 				g.want.policy = kit.Pick(r, c04Policies)
 			}
@@ -471,38 +616,41 @@ func c04NewUniverse(c *kit.Case, conc bool) *c04U {
 				g.want.min = g.slots
 			}
 			gi++
-			grp.gangs = append(grp.gangs, g)
-			grp.ids = append(grp.ids, g.id)
+			grp = append(grp, g)
+			ids = append(ids, g.id)
 			u.gangs = append(u.gangs, g)
 		}
-		sort.Strings(grp.ids)
-		u.groups = append(u.groups, grp)
+		sort.Strings(ids)
+		for _, g := range grp {
+			g.want.decl = ids
+			if n == 1 {
+				// a gang on its own: every legal (and one illegal) way of saying so
+				g.want.repr = kit.Pick(r, c04SingleReprs)
+				if r.Pct(5) {
+					g.want.decl = c04With(ids, c04Ghost) // names a gang that never exists: can never be released
+					g.want.repr = c04ReprList
+				}
+			}
+		}
 	}
+	u.index()
 	return u
 }
 
 func (u *c04U) describe() string {
 	s := ""
-	for _, grp := range u.groups {
-		s += fmt.Sprintf("group%d{", grp.idx)
-		for _, g := range grp.gangs {
-			src := "annotation"
-			if g.crd {
-				src = "podgroup"
-			}
-			s += fmt.Sprintf("%s:%s min=%d slots=%d %s %s; ", g.name, src, g.want.min, g.slots, g.want.mode, g.want.policy)
+	for _, g := range u.gangs {
+		src := "annotation"
+		if g.crd {
+			src = "podgroup"
 		}
-		s += "} "
+		ann, present := c04GroupsAnnotation(g.want)
+		if !present {
+			ann = "<absent>"
+		}
+		s += fmt.Sprintf("%s:%s min=%d slots=%d %s %s groups=%q; ", g.name, src, g.want.min, g.slots, g.want.mode, g.want.policy, ann)
 	}
 	return s
-}
-
-func (u *c04U) groupsJSON(grp *c04Group) string {
-	q := make([]string, len(grp.ids))
-	for i, id := range grp.ids {
-		q[i] = strconv.Quote(id)
-	}
-	return "[" + strings.Join(q, ",") + "]"
 }
 
 var c04T0 = time.Date(2024, 1, 1, 0, 0, 0, 0, time.UTC)
@@ -529,8 +677,8 @@ func (u *c04U) podObject(p *c04Pod, node string, rv int) *corev1.Pod {
 	if !g.omitPolicy {
 		pod.Annotations[extension.AnnotationGangMatchPolicy] = g.want.policy
 	}
-	if len(g.group.ids) > 1 || g.idx%2 == 0 {
-		pod.Annotations[extension.AnnotationGangGroups] = u.groupsJSON(g.group)
+	if v, present := c04GroupsAnnotation(g.want); present {
+		pod.Annotations[extension.AnnotationGangGroups] = v
 	}
 	return pod
 }
@@ -543,7 +691,7 @@ func maxC04(a, b int) int {
 }
 
 func (u *c04U) pgObject(g *c04Gang, cfg c04Cfg, rv int) *v1alpha1.PodGroup {
-	to := int32(300 + rv)
+	to := int32(cfg.timeout)
 	pg := &v1alpha1.PodGroup{
 		ObjectMeta: metav1.ObjectMeta{Namespace: c04NS, Name: g.name, ResourceVersion: strconv.Itoa(rv),
 			CreationTimestamp: metav1.Time{Time: c04T0}, Annotations: map[string]string{}},
@@ -554,8 +702,8 @@ func (u *c04U) pgObject(g *c04Gang, cfg c04Cfg, rv int) *v1alpha1.PodGroup {
 		pg.Annotations[extension.AnnotationGangMatchPolicy] = cfg.policy
 	}
 	pg.Annotations[extension.AnnotationGangTotalNum] = strconv.Itoa(maxC04(g.slots, cfg.min))
-	if len(g.group.ids) > 1 || g.idx%2 == 0 {
-		pg.Annotations[extension.AnnotationGangGroups] = u.groupsJSON(g.group)
+	if v, present := c04GroupsAnnotation(cfg); present {
+		pg.Annotations[extension.AnnotationGangGroups] = v
 	}
 	return pg
 }
@@ -688,14 +836,16 @@ func (u *c04U) infDeliver(a int, except *c04Pod) bool {
 	p.delivered++
 	old := p.obj
 	var obj *corev1.Pod
-	grp := p.gang.group
 	if v.del {
 		p.delBegun = true
 		obj = old
-		for _, g := range grp.gangs {
+		mates := u.declGangsLocked(p.gang)
+		for _, g := range mates {
 			for _, q := range g.pods {
 				if q != p && q.held && q.known() {
-					grp.deleteWhileHeldSinceLastPermit = true
+					for _, h := range mates {
+						h.deleteWhileHeldSinceLastPermit = true
+					}
 				}
 			}
 		}
@@ -704,7 +854,7 @@ func (u *c04U) infDeliver(a int, except *c04Pod) bool {
 		p.addBegun = true
 		if v.node != "" {
 			p.boundBegun = true
-			grp.satisfied = true
+			u.setSatLocked(p.gang)
 		} else if p.boundDone {
 			p.staleAfterBound = true
 		}
@@ -724,6 +874,10 @@ func (u *c04U) infDeliver(a int, except *c04Pod) bool {
 		u.op("I", "deliver add %s uid=%s rv=%d node=%q", p.key, p.uid, v.rv, v.node)
 		u.mgr.cache.onPodAdd(obj)
 		u.c.Count("op_deliver_add", 1)
+		if k := c04DeclKind(p.gang.want); !p.gang.crd && k != "" {
+			u.c.Count("gang_groups_annotation_degenerate", 1)
+			u.c.Count("gang_groups_annotation_degenerate_"+k, 1)
+		}
 	default:
 		u.op("I", "deliver update %s uid=%s rv=%d node=%q stale-after-bound=%v", p.key, p.uid, v.rv, v.node, stale)
 		u.mgr.cache.onPodUpdate(old, obj)
@@ -755,61 +909,207 @@ func (u *c04U) infDeliver(a int, except *c04Pod) bool {
 	return true
 }
 
-// infPG: PodGroup add / update / delete of one crd gang. The API write and its delivery are one
-// step (nobody else writes PodGroups, so lag changes nothing).
+// declGangsLocked: the gangs of the universe named by g's current declaration (g included).
+func (u *c04U) declGangsLocked(g *c04Gang) []*c04Gang {
+	var out []*c04Gang
+	for _, id := range u.declLocked(g) {
+		if h := u.byID[id]; h != nil {
+			out = append(out, h)
+		}
+	}
+	return out
+}
+
+// wantMatesLocked: the other gangs g's PodGroup names at the API, and whether all of them (and g)
+// are PodGroup gangs of the universe - only such groups change their membership (annotation gangs
+// cannot re-declare, a group with one of them would stay inconsistent for ever).
+func (u *c04U) wantMatesLocked(g *c04Gang) (mates []*c04Gang, allCRD bool) {
+	allCRD = g.crd
+	for _, id := range g.want.decl {
+		if id == g.id {
+			continue
+		}
+		h := u.byID[id]
+		if h == nil || !h.crd {
+			allCRD = false
+			continue
+		}
+		mates = append(mates, h)
+	}
+	return
+}
+
+// API writes to PodGroup annotations (spec untouched). They change what the objects say; each
+// PodGroup's event is delivered later, one at a time, so the cache passes through intermediate
+// states in which the gangs of a group disagree about the group.
+
+func (u *c04U) apiLeaveLocked(g *c04Gang, repr int) bool {
+	mates, all := u.wantMatesLocked(g)
+	if len(mates) == 0 || !all {
+		return false
+	}
+	for _, h := range mates {
+		h.want.decl = c04Without(h.want.decl, g.id)
+		h.want.repr = c04ReprList
+	}
+	g.want.decl = []string{g.id}
+	g.want.repr = repr
+	return true
+}
+
+func (u *c04U) apiJoinLocked(g, t *c04Gang) bool {
+	if g == t || !g.crd || !t.crd || c04Has(g.want.decl, t.id) {
+		return false
+	}
+	tm, all := u.wantMatesLocked(t)
+	gm, gall := u.wantMatesLocked(g)
+	if !all || !gall || len(tm)+2 > 3 {
+		return false
+	}
+	if len(gm) > 0 && !u.apiLeaveLocked(g, c04ReprList) {
+		return false
+	}
+	grp := c04With(t.want.decl, g.id)
+	for _, h := range append(tm, t, g) {
+		h.want.decl = grp
+		h.want.repr = c04ReprList
+	}
+	g.want.mode = t.want.mode // one mode per group
+	return true
+}
+
+func (u *c04U) apiFlipModeLocked(g *c04Gang) bool {
+	mode := extension.GangModeStrict
+	if g.want.mode == extension.GangModeStrict {
+		mode = extension.GangModeNonStrict
+	}
+	mates, _ := u.wantMatesLocked(g)
+	for _, h := range append(mates, g) {
+		h.want.mode = mode
+	}
+	return true
+}
+
+func c04CfgStr(cfg c04Cfg) string {
+	ann, present := c04GroupsAnnotation(cfg)
+	if !present {
+		ann = "<absent>"
+	}
+	return fmt.Sprintf("min=%d timeout=%d mode=%s policy=%s groups=%q", cfg.min, cfg.timeout, cfg.mode, cfg.policy, ann)
+}
+
+// pgDeliverLocked delivers g's PodGroup as it is at the API now (add or update). Called with u.mu
+// held, returns with it released.
+func (u *c04U) pgDeliverLocked(g *c04Gang) {
+	g.pgRV++
+	rv := g.pgRV
+	old, cfg := g.cfg, g.want
+	add := !g.cfgDone
+	g.cfgBegun = true
+	g.cfg = cfg
+	u.relateLocked(g, cfg.decl)
+	u.mu.Unlock()
+	if k := c04DeclKind(cfg); k != "" {
+		u.c.Count("gang_groups_annotation_degenerate", 1)
+		u.c.Count("gang_groups_annotation_degenerate_"+k, 1)
+	}
+	if add {
+		u.op("I", "podgroup add %s %s", g.id, c04CfgStr(cfg))
+		u.mgr.cache.onPodGroupAdd(u.pgObject(g, cfg, rv))
+		u.mu.Lock()
+		g.cfgDone = true
+		u.mu.Unlock()
+		u.c.Count("op_podgroup_add", 1)
+		return
+	}
+	specSame := old.min == cfg.min && old.timeout == cfg.timeout
+	var kinds []string
+	if old.repr != cfg.repr || !c04SameDecl(old.decl, cfg.decl) {
+		kinds = append(kinds, "groups")
+	}
+	if old.mode != cfg.mode {
+		kinds = append(kinds, "mode")
+	}
+	if old.policy != cfg.policy {
+		kinds = append(kinds, "policy")
+	}
+	u.op("I", "podgroup update %s %s (was %s) spec-unchanged=%v changed-annotations=%v", g.id, c04CfgStr(cfg), c04CfgStr(old), specSame, kinds)
+	u.mgr.cache.onPodGroupUpdate(u.pgObject(g, old, rv-1), u.pgObject(g, cfg, rv))
+	switch {
+	case specSame && len(kinds) > 0:
+		u.c.Count("podgroup_updates_annotation_only", 1)
+		for _, k := range kinds {
+			u.c.Count("podgroup_updates_annotation_only_"+k, 1)
+		}
+	case len(kinds) > 0 || old.min != cfg.min:
+		u.c.Count("op_podgroup_update_change", 1)
+	default:
+		u.c.Count("op_podgroup_update_same", 1)
+	}
+}
+
+// infPG: one PodGroup intent on a crd gang: deliver its add; deliver a pending update; or write a
+// change to the API (timeout / min in the spec; match policy, mode, gang-group list or its spelling
+// in the annotations only) and deliver this gang's event - the events of the other PodGroups the
+// change touched stay pending until their own intent; or delete the PodGroup (I4).
 func (u *c04U) infPG(a, b int, allowChange bool) bool {
 	u.mu.Lock()
-	var cand []*c04Gang
+	var cand, pending []*c04Gang
 	for _, g := range u.gangs {
 		if g.crd {
 			cand = append(cand, g)
+			if g.cfgDone && !c04CfgEq(g.want, g.cfg) {
+				pending = append(pending, g)
+			}
 		}
+	}
+	if u.force == "" && len(pending) > 0 && b%4 != 0 {
+		cand = pending
 	}
 	g, ok := c04Pick(u, cand, a, func(g *c04Gang) string { return g.id })
 	if !ok {
 		u.mu.Unlock()
 		return false
 	}
-	g.pgRV++
-	rv := g.pgRV
-	if !g.cfgDone {
-		g.cfgBegun = true
-		cfg := g.want
-		g.cfg = cfg
-		u.mu.Unlock()
-		u.op("I", "podgroup add %s min=%d mode=%s policy=%s", g.id, cfg.min, cfg.mode, cfg.policy)
-		u.mgr.cache.onPodGroupAdd(u.pgObject(g, cfg, rv))
-		u.mu.Lock()
-		g.cfgDone = true
-		u.mu.Unlock()
-		u.c.Count("op_podgroup_add", 1)
+	if !g.cfgDone || !c04CfgEq(g.want, g.cfg) {
+		u.pgDeliverLocked(g)
 		return true
 	}
-	what := b % 10
+	what := (b / 4) % 20
 	if !allowChange {
 		what = 0
 	}
+	c := b / 80
 	switch {
-	case what < 4: // update that changes nothing the decisions depend on (timeout only)
-		cfg := g.cfg
-		u.mu.Unlock()
-		u.op("I", "podgroup update %s (timeout only)", g.id)
-		u.mgr.cache.onPodGroupUpdate(u.pgObject(g, cfg, rv-1), u.pgObject(g, cfg, rv))
-		u.c.Count("op_podgroup_update_same", 1)
-	case what < 8: // update of min or policy
-		oldCfg := g.cfg
-		cfg := oldCfg
-		if b/10%2 == 0 {
-			cfg.min = 1 + (oldCfg.min+b/20)%3
-		} else {
-			cfg.policy = c04Policies[(b/20)%3]
+	case what < 2: // timeout: the spec changes, nothing the decisions depend on
+	case what < 5:
+		g.want.min = 1 + (g.want.min+c)%3
+	case what < 9:
+		g.want.policy = c04Policies[(c04PolicyIndex(g.want.policy)+1+c%2)%3]
+	case what < 13:
+		u.apiFlipModeLocked(g)
+	case what < 18:
+		mates, all := u.wantMatesLocked(g)
+		switch {
+		case len(g.want.decl) == 1 && c%3 == 0:
+			// same group (the gang itself), spelled differently
+			g.want.repr = c04SingleReprs[(c/3)%len(c04SingleReprs)]
+			if g.want.repr == g.cfg.repr {
+				g.want.repr = (g.cfg.repr + 1) % len(c04ReprNames)
+			}
+		case len(mates) > 0 && all && c%2 == 0:
+			u.apiLeaveLocked(g, c04SingleReprs[(c/2)%len(c04SingleReprs)])
+		default:
+			var ts []*c04Gang
+			for _, t := range u.gangs {
+				if t != g && t.crd && !c04Has(g.want.decl, t.id) {
+					ts = append(ts, t)
+				}
+			}
+			if len(ts) > 0 {
+				u.apiJoinLocked(g, ts[c%len(ts)])
+			}
 		}
-		g.want = cfg
-		g.cfg = cfg
-		u.mu.Unlock()
-		u.op("I", "podgroup update %s min=%d policy=%s (was min=%d policy=%s)", g.id, cfg.min, cfg.policy, oldCfg.min, oldCfg.policy)
-		u.mgr.cache.onPodGroupUpdate(u.pgObject(g, oldCfg, rv-1), u.pgObject(g, cfg, rv))
-		u.c.Count("op_podgroup_update_change", 1)
 	default: // delete (I4: only while no member is assumed)
 		for _, p := range g.pods {
 			if p.held || p.fw != 0 {
@@ -817,6 +1117,7 @@ func (u *c04U) infPG(a, b int, allowChange bool) bool {
 				return false
 			}
 		}
+		g.pgRV++
 		cfg := g.cfg
 		g.cfgBegun, g.cfgDone = false, false
 		for _, p := range g.pods {
@@ -825,10 +1126,24 @@ func (u *c04U) infPG(a, b int, allowChange bool) bool {
 		}
 		u.mu.Unlock()
 		u.op("I", "podgroup delete %s", g.id)
-		u.mgr.cache.onPodGroupDelete(u.pgObject(g, cfg, rv))
+		u.mgr.cache.onPodGroupDelete(u.pgObject(g, cfg, g.pgRV))
 		u.c.Count("op_podgroup_delete", 1)
+		return true
 	}
+	if c04CfgEq(g.want, g.cfg) {
+		g.want.timeout++ // the chosen change was not applicable: a timeout-only update instead
+	}
+	u.pgDeliverLocked(g)
 	return true
+}
+
+func c04PolicyIndex(p string) int {
+	for i, x := range c04Policies {
+		if x == p {
+			return i
+		}
+	}
+	return 0
 }
 
 func (u *c04U) runInformer(it c04Intent, except *c04Pod) {
@@ -921,16 +1236,24 @@ func (u *c04U) holdingLocked(g *c04Gang, s c04Snap) (exists bool, w, b int) {
 	return
 }
 
-// releaseLocked is oracle (1) for one group at a release by/through pod p.
-func (u *c04U) releaseLocked(grp *c04Group, by *c04Pod, s c04Snap, how string) (v *c04Verdict, state string, ok, okByCounts bool) {
+// releaseLocked is oracle (1) at a release by/through pod `by`: every gang of the group AS CURRENTLY
+// DECLARED by the releasing pod's gang exists, is initialised and has its minimum.
+func (u *c04U) releaseLocked(by *c04Pod, s c04Snap, how string) (v *c04Verdict, state string, ok, okByCounts bool) {
 	byCfg := u.gangCfg(by.gang)
+	decl := u.declLocked(by.gang)
 	state = fmt.Sprintf("%s/%s", byCfg.policy, byCfg.mode)
 	allOK := true
 	okByCounts = true
 	var firstBad *c04Verdict
-	for _, g := range grp.gangs {
-		exists, w, b := u.holdingLocked(g, s)
-		cfg := u.gangCfg(g)
+	for _, id := range decl {
+		g := u.byID[id]
+		exists, w, b, sat := false, 0, 0, false
+		var cfg c04Cfg
+		if g != nil {
+			exists, w, b = u.holdingLocked(g, s)
+			cfg = u.gangCfg(g)
+			sat = u.satLocked(g)
+		}
 		state += fmt.Sprintf("|%s:min%d,w%d,b%d", cfg.policy, cfg.min, minC04(w, 4), minC04(b, 4))
 		good := false
 		why := ""
@@ -942,8 +1265,8 @@ func (u *c04U) releaseLocked(grp *c04Group, by *c04Pod, s c04Snap, how string) (
 		case cfg.policy == extension.GangMatchPolicyWaitingAndRunning:
 			good = w+b >= cfg.min
 		default:
-			good = w >= cfg.min || grp.satisfied
-			if exists && w < cfg.min {
+			good = w >= cfg.min || sat
+			if w < cfg.min {
 				okByCounts = false
 			}
 		}
@@ -951,18 +1274,18 @@ func (u *c04U) releaseLocked(grp *c04Group, by *c04Pod, s c04Snap, how string) (
 			allOK = false
 			okByCounts = false
 			if why == "" {
-				why = fmt.Sprintf("has min=%d under policy %s but only %d member(s) waiting and %d bound hold resources (group once-satisfied=%v)", cfg.min, cfg.policy, w, b, grp.satisfied)
+				why = fmt.Sprintf("has min=%d under policy %s but only %d member(s) waiting and %d bound hold resources (a member of a related gang was bound before: %v)", cfg.min, cfg.policy, w, b, sat)
 			}
 			if firstBad == nil {
 				sig := "C04/release/gang-short/" + cfg.policy
 				if !exists {
 					sig = "C04/release/gang-missing"
 				}
-				firstBad = &c04Verdict{sig, fmt.Sprintf("%s released pod %s of gang %s, but gang %s of its group %v %s", how, by.key, by.gang.id, g.id, grp.ids, why)}
+				firstBad = &c04Verdict{sig, fmt.Sprintf("%s released pod %s of gang %s, but gang %s of the group %v that gang %s currently declares %s", how, by.key, by.gang.id, id, decl, by.gang.id, why)}
 			}
 		}
 	}
-	if byCfg.policy == extension.GangMatchPolicyOnceSatisfied && grp.satisfied {
+	if byCfg.policy == extension.GangMatchPolicyOnceSatisfied && u.satLocked(by.gang) {
 		// the group has been satisfied before: the statement constrains nothing
 		return nil, state + "|once-satisfied", allOK, okByCounts
 	}
@@ -976,28 +1299,32 @@ func minC04(a, b int) int {
 	return b
 }
 
-// strictLocked is oracle (3) after Unreserve / AfterPostFilter of p.
+// strict is oracle (3) after Unreserve / AfterPostFilter of p. The group is the one p's gang
+// currently declares. While the gangs of the group disagree about the mode (one PodGroup already
+// updated, another not yet; or an annotation gang in a group whose PodGroups were flipped) only the
+// waiting members of gangs that are themselves strict are required to be rejected.
 func (u *c04U) strict(p *c04Pod, after string, evs []c04Ev) *c04Verdict {
 	u.mu.Lock()
-	grp := p.gang.group
 	cfg := u.gangCfg(p.gang)
+	decl := u.declLocked(p.gang)
 	member := p.addDone && !p.delBegun
 	inited := !p.gang.crd || p.gang.cfgDone
 	uniform := true
-	for _, g := range grp.gangs {
+	strictGang := map[string]bool{}
+	for _, g := range u.declGangsLocked(p.gang) {
 		if g.crd && !g.cfgBegun {
 			continue
 		}
-		if u.gangCfg(g).policy != cfg.policy {
+		gc := u.gangCfg(g)
+		if gc.policy != cfg.policy {
 			uniform = false
 		}
+		if gc.mode == extension.GangModeStrict {
+			strictGang[g.name] = true
+		}
 	}
-	satisfied := grp.satisfied
+	satisfied := u.satLocked(p.gang)
 	exempt := satisfied && (cfg.policy == extension.GangMatchPolicyOnceSatisfied || !uniform)
-	inGroup := map[string]bool{}
-	for _, g := range grp.gangs {
-		inGroup[g.name] = true
-	}
 	u.mu.Unlock()
 	pluginRejects := 0
 	for _, e := range evs {
@@ -1025,13 +1352,13 @@ func (u *c04U) strict(p *c04Pod, after string, evs []c04Ev) *c04Verdict {
 	ws, _, rej := u.h.list()
 	checked := 0
 	for i, w := range ws {
-		if !inGroup[w.p.gang.name] {
+		if !strictGang[w.p.gang.name] {
 			continue
 		}
 		checked++
 		if !rej[i] {
 			return &c04Verdict{"C04/strict/waiting-member-not-rejected",
-				fmt.Sprintf("%s of %s (gang %s, strict, policy %s, group %v, a member was bound before: %v - the once-satisfied exemption does not apply): pod %s of gang %s is still in the waiting map and has never received a Reject", after, p.key, p.gang.id, cfg.policy, grp.ids, satisfied, w.p.key, w.p.gang.id)}
+				fmt.Sprintf("%s of %s (gang %s, strict, policy %s, declared group %v, a member was bound before: %v - the once-satisfied exemption does not apply): pod %s of strict gang %s is still in the waiting map and has never received a Reject", after, p.key, p.gang.id, cfg.policy, decl, satisfied, w.p.key, w.p.gang.id)}
 		}
 	}
 	u.c.Count("strict_rollbacks_checked", 1)
@@ -1039,28 +1366,31 @@ func (u *c04U) strict(p *c04Pod, after string, evs []c04Ev) *c04Verdict {
 	return nil
 }
 
-// checkAllows: every Allow the handle saw during a scheduler call is a release and must satisfy (1).
+// checkAllows: every Allow the handle saw during a scheduler call is a release. Through
+// Permit=Success of `by` it must go to a pod of a gang that by's gang currently declares (the group
+// itself was judged by releaseLocked); anywhere else it must satisfy (1) for the allowed pod's gang.
 func (u *c04U) checkAllows(evs []c04Ev, by *c04Pod, s c04Snap, how string) *c04Verdict {
 	u.mu.Lock()
 	defer u.mu.Unlock()
-	seen := map[*c04Group]bool{}
+	seen := map[*c04Gang]bool{}
 	for _, e := range evs {
 		if !e.allow {
 			continue
 		}
 		u.c.Count("allow_calls", 1)
-		grp := e.wp.p.gang.group
-		if by != nil && grp != by.gang.group {
-			return &c04Verdict{"C04/release/allow-outside-group", fmt.Sprintf("%s of %s (group %v) allowed waiting pod %s of gang %s, which is not in that group", how, by.key, by.gang.group.ids, e.wp.p.key, e.wp.p.gang.id)}
-		}
-		if seen[grp] {
+		g := e.wp.p.gang
+		if by != nil {
+			if decl := u.declLocked(by.gang); !c04Has(decl, g.id) {
+				return &c04Verdict{"C04/release/allow-outside-group", fmt.Sprintf("%s of %s (gang %s declares the group %v) allowed waiting pod %s of gang %s, which is not in that group", how, by.key, by.gang.id, decl, e.wp.p.key, g.id)}
+			}
 			continue
 		}
-		seen[grp] = true
-		if by == nil || grp != by.gang.group {
-			if v, _, _, _ := u.releaseLocked(grp, e.wp.p, s, how); v != nil {
-				return v
-			}
+		if seen[g] {
+			continue
+		}
+		seen[g] = true
+		if v, _, _, _ := u.releaseLocked(e.wp.p, s, how); v != nil {
+			return v
 		}
 	}
 	return nil
@@ -1110,7 +1440,6 @@ func (u *c04U) cycle(a int, nodeFound bool, between []c04Intent) bool {
 	u.mu.Lock()
 	pod := p.obj
 	snap := u.snapLocked()
-	grp := p.gang.group
 	u.mu.Unlock()
 	if !nodeFound {
 		st := framework.NewCycleState()
@@ -1134,10 +1463,10 @@ func (u *c04U) cycle(a int, nodeFound bool, between []c04Intent) bool {
 		p.held = true
 		p.fw = 2
 		u.binding = append(u.binding, p)
-		v, state, _, _ := u.releaseLocked(grp, p, snap, "Permit=Success")
-		if grp.deleteWhileHeldSinceLastPermit {
+		v, state, _, _ := u.releaseLocked(p, snap, "Permit=Success")
+		if p.gang.deleteWhileHeldSinceLastPermit {
 			u.c.Count("delete_between_permits", 1)
-			grp.deleteWhileHeldSinceLastPermit = false
+			p.gang.deleteWhileHeldSinceLastPermit = false
 		}
 		u.mu.Unlock()
 		u.op("S", "cycle %s: Permit -> Success, AllowGangGroup; %s; shadow %s", p.key, c04Evs(evs), state)
@@ -1157,10 +1486,10 @@ func (u *c04U) cycle(a int, nodeFound bool, between []c04Intent) bool {
 		p.held = true
 		p.fw = 1
 		p.wp = w
-		_, state, allOK, okByCounts := u.releaseLocked(grp, p, snap, "")
-		if grp.deleteWhileHeldSinceLastPermit {
+		_, state, allOK, okByCounts := u.releaseLocked(p, snap, "")
+		if p.gang.deleteWhileHeldSinceLastPermit {
 			u.c.Count("delete_between_permits", 1)
-			grp.deleteWhileHeldSinceLastPermit = false
+			p.gang.deleteWhileHeldSinceLastPermit = false
 		}
 		u.mu.Unlock()
 		u.h.add(w)
@@ -1207,9 +1536,9 @@ func (u *c04U) unreserve(p *c04Pod, why string) {
 	u.mu.Lock()
 	pod := p.obj
 	snap := u.snapLocked()
-	grp := p.gang.group
 	partial := false
-	for _, g := range grp.gangs {
+	afterBound := p.boundDone // gap F: the informer already told the cache that this very pod is bound
+	for _, g := range u.declGangsLocked(p.gang) {
 		for _, q := range g.pods {
 			if q != p && q.boundDone && q.known() {
 				partial = true
@@ -1228,6 +1557,9 @@ func (u *c04U) unreserve(p *c04Pod, why string) {
 	u.c.Count("op_unreserve", 1)
 	if partial {
 		u.c.Count("unreserve_after_partial_bind", 1)
+	}
+	if afterBound {
+		u.c.Count("unreserve_after_bound_event", 1)
 	}
 	u.fail(u.checkAllows(evs, nil, snap, "Unreserve"))
 	u.fail(u.strict(p, "Unreserve", evs))
@@ -1288,8 +1620,12 @@ func (u *c04U) timeout(a int) bool {
 	return true
 }
 
-// bindFinish: the bind of an allowed pod succeeds (PostBind) or fails (Unreserve) (S5).
-func (u *c04U) bindFinish(a int, ok bool) bool {
+// bindFinish: the bind of an allowed pod (S5). outcome 0: succeeds -> PostBind. 1: fails ->
+// Unreserve. 2: the API server applied the binding but the scheduler's client saw a failure (timeout):
+// the object has its node name (a new version the informer will deliver), the scheduler will run
+// Unreserve - later (lateUnreserve), so that the bound update can arrive first, as it does in reality
+// when the client waits for its timeout.
+func (u *c04U) bindFinish(a int, outcome int) bool {
 	p, found := c04Pick(u, u.binding, a, c04PodKey)
 	if !found {
 		return false
@@ -1307,21 +1643,32 @@ func (u *c04U) bindFinish(a int, ok bool) bool {
 	u.binding = append(u.binding[:i:i], u.binding[i+1:]...)
 	u.mu.Lock()
 	if p.apiDeleted {
-		ok = false
+		outcome = 1
 	}
 	pod := p.obj
-	if ok {
+	if outcome != 1 {
 		p.apiNode = "n1"
 		u.rv++
 		p.queue = append(p.queue, c04Ver{node: "n1", rv: u.rv})
+	}
+	if outcome == 0 {
 		p.boundBegun = true
-		p.gang.group.satisfied = true
+		u.setSatLocked(p.gang)
+	}
+	if outcome == 2 {
+		p.fw = 3
 	}
 	snap := u.snapLocked()
 	u.mu.Unlock()
-	if !ok {
+	switch outcome {
+	case 1:
 		u.c.Count("op_bind_failed", 1)
 		u.unreserve(p, "bind failed")
+		return true
+	case 2:
+		u.late = append(u.late, p)
+		u.op("S", "bind %s applied by the API server but reported failed to the scheduler (client timeout); Unreserve follows", p.key)
+		u.c.Count("op_bind_applied_but_reported_failed", 1)
 		return true
 	}
 	u.mgr.PostBind(u.ctx, pod, "n1")
@@ -1337,6 +1684,22 @@ func (u *c04U) bindFinish(a int, ok bool) bool {
 	return true
 }
 
+// lateUnreserve: the Unreserve of a pod whose bind was applied but reported failed.
+func (u *c04U) lateUnreserve(a int) bool {
+	p, found := c04Pick(u, u.late, a, c04PodKey)
+	if !found {
+		return false
+	}
+	for j := range u.late {
+		if u.late[j] == p {
+			u.late = append(u.late[:j:j], u.late[j+1:]...)
+			break
+		}
+	}
+	u.unreserve(p, "bind reported failed (but applied)")
+	return true
+}
+
 func (u *c04U) runScheduler(it c04Intent, between []c04Intent) {
 	try := func(kind int) bool {
 		switch kind {
@@ -1347,14 +1710,22 @@ func (u *c04U) runScheduler(it c04Intent, between []c04Intent) {
 		case c04STimeout:
 			return u.timeout(it.a)
 		case c04SBind:
-			return u.bindFinish(it.a, it.flag)
+			switch {
+			case it.flag:
+				return u.bindFinish(it.a, 0)
+			case it.b%2 == 1:
+				return u.bindFinish(it.a, 2)
+			}
+			return u.bindFinish(it.a, 1)
+		case c04SLate:
+			return u.lateUnreserve(it.a)
 		}
 		return false
 	}
 	if try(it.kind) {
 		return
 	}
-	for _, k := range []int{c04SWake, c04SBind, c04SCycle} {
+	for _, k := range []int{c04SWake, c04SBind, c04SCycle, c04SLate} {
 		if k != it.kind && try(k) {
 			return
 		}
@@ -1481,7 +1852,7 @@ func c04GenIntents(r *kit.Rand, n int, conc bool) []c04Intent {
 			it.inf = true
 			it.kind = []int{c04ICreate, c04ITouch, c04IDeliver, c04IDelete, c04IPG}[r.Weighted(14, 20, 48, 7, 11)]
 		} else {
-			it.kind = []int{c04SCycle, c04SWake, c04STimeout, c04SBind}[r.Weighted(44, 22, 6, 28)]
+			it.kind = []int{c04SCycle, c04SWake, c04STimeout, c04SBind, c04SLate}[r.Weighted(42, 21, 6, 26, 5)]
 			switch it.kind {
 			case c04SCycle:
 				it.flag = !r.Pct(10) // a node was found
@@ -1491,7 +1862,7 @@ func c04GenIntents(r *kit.Rand, n int, conc bool) []c04Intent {
 					it.b = 0
 				}
 			case c04SBind:
-				it.flag = !r.Pct(14) // bind succeeds
+				it.flag = !r.Pct(20) // bind succeeds; otherwise b decides: failed, or applied but reported failed
 			}
 		}
 		out = append(out, it)
@@ -1634,6 +2005,10 @@ func TestVerifC04Conc(t *testing.T) {
 			its := c04GenIntents(c.R, n, true)
 			const phases = 3
 			ri, rs := c.R.Fork(), c.R.Fork()
+			// yield points at the entry of the separately locked Gang steps (unit.json "instr"): no-ops
+			// unless enabled here; the signature of the observed point sequence is evidence only
+			kit.EnableYield(c.R.Fork())
+			defer kit.DisableYield()
 			for ph := 0; ph < phases; ph++ {
 				lo, hi := ph*n/phases, (ph+1)*n/phases
 				var inf, sch []c04Intent
@@ -1693,6 +2068,7 @@ func TestVerifC04Conc(t *testing.T) {
 				u.op("-", "quiescent point after phase %d", ph)
 				u.checkPartition(fmt.Sprintf("at the quiescent point after phase %d", ph))
 			}
+			c.Seen("yield-points", kit.DisableYield())
 			u.finish()
 			if c.K < 1 {
 				ops := c.Ops()
@@ -1718,14 +2094,15 @@ type c04GangSpec struct {
 }
 
 type c04Step struct {
-	op   string // create deliver touch delete pg | permit nofit wake timeout bindok bindfail
-	key  string // pod "gN-pM" or gang "gN"
+	op   string // create deliver touch delete pg pg-delete api-join api-leave api-mode api-policy api-repr | permit nofit wake timeout bindok bindfail bindlost unreserve
+	key  string // pod "gN-pM" or gang "gN"; with an argument "gN>arg" (api-join: the gang to join, api-policy: the policy, api-repr: the spelling)
 	want Status // permit: expected status ("" = any); documents the script, a mismatch is a harness error
 }
 
 type c04Script struct {
 	name  string
 	gangs []c04GangSpec
+	reprs []int // optional: how gang i spells its gang-groups annotation (gangs on their own only)
 	steps []c04Step
 }
 
@@ -1770,6 +2147,36 @@ var c04Scripts = []c04Script{
 			{"permit", "g0-p0", Wait}, {"touch", "g0-p0", ""}, {"deliver", "g0-p0", ""}, {"permit", "g0-p1", Success}, {"wake", "g0-p0", ""}, {"bindok", "g0-p0", ""}, {"bindfail", "g0-p1", ""},
 			{"delete", "g0-p1", ""}, {"deliver", "g0-p1", ""}, {"create", "g0-p1", ""}, {"deliver", "g0-p1", ""}, {"create", "g0-p2", ""}, {"deliver", "g0-p2", ""},
 			{"permit", "g0-p1", Success}, {"bindok", "g0-p1", ""}, {"nofit", "g0-p2", ""}, {"deliver", "g0-p0", ""}}},
+	{name: "annotation-only PodGroup updates: a gang joins a group, one event per PodGroup (gap D, groups)",
+		gangs: []c04GangSpec{{0, true, 1, 2, c04S, c04W}, {1, true, 2, 2, c04S, c04W}},
+		steps: []c04Step{{"pg", "g0", ""}, {"pg", "g1", ""}, {"create", "g0-p0", ""}, {"create", "g1-p0", ""}, {"create", "g1-p1", ""}, {"deliver", "g0-p0", ""}, {"deliver", "g1-p0", ""}, {"deliver", "g1-p1", ""},
+			{"api-join", "g1>g0", ""}, {"pg", "g0", ""}, {"permit", "g0-p0", Wait}, {"permit", "g1-p0", Wait}, {"pg", "g1", ""}, {"permit", "g1-p1", Success},
+			{"wake", "g0-p0", ""}, {"wake", "g1-p0", ""}, {"bindok", "g0-p0", ""}, {"bindok", "g1-p0", ""}, {"bindok", "g1-p1", ""}}},
+	{name: "annotation-only PodGroup updates: a gang leaves its group; its release no longer allows the former mates (gap D, groups)",
+		gangs: []c04GangSpec{{0, true, 2, 3, c04S, c04W}, {0, true, 1, 2, c04S, c04W}},
+		steps: []c04Step{{"pg", "g0", ""}, {"pg", "g1", ""}, {"create", "g0-p0", ""}, {"create", "g0-p1", ""}, {"create", "g1-p0", ""}, {"deliver", "g0-p0", ""}, {"deliver", "g0-p1", ""}, {"deliver", "g1-p0", ""},
+			{"permit", "g0-p0", Wait}, {"permit", "g1-p0", Wait}, {"api-leave", "g1", ""}, {"pg", "g1", ""}, {"create", "g1-p1", ""}, {"deliver", "g1-p1", ""}, {"permit", "g1-p1", Success},
+			{"pg", "g0", ""}, {"wake", "g1-p0", ""}, {"bindok", "g1-p0", ""}, {"bindok", "g1-p1", ""}, {"permit", "g0-p1", Success}, {"wake", "g0-p0", ""}, {"bindok", "g0-p0", ""}, {"bindok", "g0-p1", ""}}},
+	{name: "annotation-only PodGroup update: non-strict becomes strict, the next roll-back rejects the waiting members (gap D, mode)",
+		gangs: []c04GangSpec{{0, true, 3, 3, c04N, c04W}},
+		steps: []c04Step{{"pg", "g0", ""}, {"create", "g0-p0", ""}, {"create", "g0-p1", ""}, {"create", "g0-p2", ""}, {"deliver", "g0-p0", ""}, {"deliver", "g0-p1", ""}, {"deliver", "g0-p2", ""},
+			{"permit", "g0-p0", Wait}, {"permit", "g0-p1", Wait}, {"api-mode", "g0", ""}, {"pg", "g0", ""}, {"timeout", "g0-p0", ""}, {"wake", "g0-p0", ""}, {"wake", "g0-p1", ""}}},
+	{name: "annotation-only PodGroup update: waiting-and-running becomes only-waiting, bound members no longer count (gap D, policy)",
+		gangs: []c04GangSpec{{0, true, 2, 3, c04S, c04R}},
+		steps: []c04Step{{"pg", "g0", ""}, {"create", "g0-p0", ""}, {"create", "g0-p1", ""}, {"create", "g0-p2", ""}, {"deliver", "g0-p0", ""}, {"deliver", "g0-p1", ""}, {"deliver", "g0-p2", ""},
+			{"permit", "g0-p0", Wait}, {"permit", "g0-p1", Success}, {"wake", "g0-p0", ""}, {"bindok", "g0-p0", ""}, {"bindok", "g0-p1", ""},
+			{"api-policy", "g0>" + c04W, ""}, {"pg", "g0", ""}, {"permit", "g0-p2", Wait}, {"timeout", "g0-p2", ""}, {"wake", "g0-p2", ""}}},
+	{name: "gang-groups annotation \"[]\" (pod annotation and PodGroup), then illegal JSON: the group is the gang itself (gap E)",
+		gangs: []c04GangSpec{{0, false, 2, 2, c04S, c04W}, {1, true, 2, 2, c04S, c04O}},
+		reprs: []int{c04ReprEmptyList, c04ReprEmptyList},
+		steps: []c04Step{{"create", "g0-p0", ""}, {"create", "g0-p1", ""}, {"deliver", "g0-p0", ""}, {"deliver", "g0-p1", ""}, {"permit", "g0-p0", Wait}, {"permit", "g0-p1", Success},
+			{"pg", "g1", ""}, {"create", "g1-p0", ""}, {"create", "g1-p1", ""}, {"deliver", "g1-p0", ""}, {"deliver", "g1-p1", ""}, {"permit", "g1-p0", Wait},
+			{"api-repr", "g1>illegal_json", ""}, {"pg", "g1", ""}, {"timeout", "g1-p0", ""}, {"wake", "g1-p0", ""}, {"permit", "g1-p0", Wait}, {"permit", "g1-p1", Success},
+			{"wake", "g0-p0", ""}, {"wake", "g1-p0", ""}}},
+	{name: "bind applied by the API server but reported failed: bound update before / after Unreserve (gap F)",
+		gangs: []c04GangSpec{{0, false, 1, 2, c04S, c04W}},
+		steps: []c04Step{{"create", "g0-p0", ""}, {"deliver", "g0-p0", ""}, {"permit", "g0-p0", Success}, {"bindlost", "g0-p0", ""}, {"deliver", "g0-p0", ""}, {"unreserve", "g0-p0", ""},
+			{"create", "g0-p1", ""}, {"deliver", "g0-p1", ""}, {"permit", "g0-p1", Success}, {"bindlost", "g0-p1", ""}, {"unreserve", "g0-p1", ""}, {"deliver", "g0-p1", ""}}},
 }
 
 func c04ScriptUniverse(c *kit.Case, sc c04Script) *c04U {
@@ -1779,38 +2186,66 @@ func c04ScriptUniverse(c *kit.Case, sc c04Script) *c04U {
 	args := &config.CoschedulingArgs{DefaultTimeout: metav1.Duration{Duration: 600 * time.Second}, DefaultMatchPolicy: extension.GangMatchPolicyOnceSatisfied,
 		EnablePreemption: &f, AwareNetworkTopology: &f}
 	u.mgr = &PodGroupManager{handle: u.h, args: args, cache: NewGangCache(args, nil, nil, nil, u.h)}
-	groups := map[int]*c04Group{}
+	groups := map[int][]string{}
 	for i, gs := range sc.gangs {
-		grp := groups[gs.group]
-		if grp == nil {
-			grp = &c04Group{idx: gs.group}
-			groups[gs.group] = grp
-			u.groups = append(u.groups, grp)
-		}
-		g := &c04Gang{idx: i, name: fmt.Sprintf("g%d", i), crd: gs.crd, group: grp, slots: gs.slots, want: c04Cfg{gs.min, gs.mode, gs.policy}}
+		g := &c04Gang{idx: i, name: fmt.Sprintf("g%d", i), crd: gs.crd, slots: gs.slots, want: c04Cfg{min: gs.min, mode: gs.mode, policy: gs.policy, timeout: 300}}
 		g.id = c04NS + "/" + g.name
-		grp.gangs = append(grp.gangs, g)
-		grp.ids = append(grp.ids, g.id)
+		groups[gs.group] = append(groups[gs.group], g.id)
 		u.gangs = append(u.gangs, g)
 	}
-	for _, grp := range u.groups {
-		sort.Strings(grp.ids)
+	for i, gs := range sc.gangs {
+		ids := append([]string(nil), groups[gs.group]...)
+		sort.Strings(ids)
+		u.gangs[i].want.decl = ids
+		if i < len(sc.reprs) {
+			u.gangs[i].want.repr = sc.reprs[i]
+		}
 	}
+	u.index()
 	return u
 }
 
 func TestVerifC04Scripted(t *testing.T) {
 	n := len(c04Scripts)
 	kit.Run(t, kit.Config{Property: "C04", Unit: "basic", Quick: n, Thorough: n, Exhaustive: true,
-		Rule: "hand-written in-domain histories (stale update after PostBind, delete between two permits, unreserve after partial bind, two-gang group with one gang short, no-node-fits in a strict group, once-satisfied with re-created pod) run through the same engine and oracles; every step names its pod; a step that is not applicable is a harness error, a Wait where the script expects Success ends the script (counted as converse miss)"},
+		Rule: "hand-written in-domain histories (stale update after PostBind, delete between two permits, unreserve after partial bind, two-gang group with one gang short, no-node-fits in a strict group, once-satisfied with re-created pod, annotation-only PodGroup updates of group list / mode / policy with one event per PodGroup, degenerate gang-groups annotations, bind applied but reported failed) run through the same engine and oracles; every step names its pod; a step that is not applicable is a harness error, a Wait where the script expects Success ends the script (counted as converse miss)"},
 		func(c *kit.Case) {
 			sc := c04Scripts[c.K]
 			u := c04ScriptUniverse(c, sc)
 			u.op("-", "script %q universe %s", sc.name, u.describe())
 			for i, st := range sc.steps {
-				u.force = c04NS + "/" + st.key
+				key, arg, _ := strings.Cut(st.key, ">")
+				u.force = c04NS + "/" + key
 				ok := false
 				switch st.op {
+				case "api-join", "api-leave", "api-mode", "api-policy", "api-repr":
+					u.mu.Lock()
+					g := u.byID[u.force]
+					switch {
+					case g == nil:
+					case st.op == "api-join":
+						ok = u.byID[c04NS+"/"+arg] != nil && u.apiJoinLocked(g, u.byID[c04NS+"/"+arg])
+					case st.op == "api-leave":
+						ok = u.apiLeaveLocked(g, c04ReprList)
+					case st.op == "api-mode":
+						ok = u.apiFlipModeLocked(g)
+					case st.op == "api-policy":
+						g.want.policy, ok = arg, true
+					case st.op == "api-repr":
+						for ri, n := range c04ReprNames {
+							if n == arg && len(g.want.decl) == 1 {
+								g.want.repr, ok = ri, true
+							}
+						}
+					}
+					u.mu.Unlock()
+					u.op("I", "api write to the PodGroup annotations: %s %s", st.op, st.key)
+				case "pg-delete":
+					ok = u.infPG(0, 4*19, true)
+				case "bindlost":
+					ok = u.bindFinish(0, 2)
+				case "unreserve":
+					ok = u.lateUnreserve(0)
 				case "create":
 					ok = u.infCreate(0, false)
 				case "deliver":
@@ -1841,9 +2276,9 @@ func TestVerifC04Scripted(t *testing.T) {
 				case "timeout":
 					ok = u.timeout(0)
 				case "bindok":
-					ok = u.bindFinish(0, true)
+					ok = u.bindFinish(0, 0)
 				case "bindfail":
-					ok = u.bindFinish(0, false)
+					ok = u.bindFinish(0, 1)
 				}
 				if !ok {
 					c.Harness("script %q step %d (%s %s) is not applicable", sc.name, i, st.op, st.key)
